@@ -252,6 +252,7 @@ class AST2SCFGTransformer:
         self.tree = unparse_code(code)
         self.block_index: int = 1  # 0 is reserved for genesis block
         self.bool_op_index = 0  # can have multiple of these per block
+        self.function_def_seen = False  # set when the function is entered
         self.blocks = ASTCFG()
         # Initialize first (genesis) block, assume it's named zero.
         # (This also initializes the self.current_block attribute.)
@@ -313,6 +314,13 @@ class AST2SCFGTransformer:
     def handle_ast_node(self, node: type[ast.AST] | ast.stmt) -> None:
         """Dispatch an AST node to handle."""
         if isinstance(node, ast.FunctionDef):
+            # Only the function being transformed is supported, nested (or
+            # additional) function definitions are not.
+            if self.function_def_seen:
+                raise NotImplementedError(
+                    f"Node type {node} not implemented"
+                )
+            self.function_def_seen = True
             self.handle_function_def(node)
         elif isinstance(
             node,
